@@ -26,6 +26,13 @@ import (
 //verif:guarded Wrapper mu WorkingStatus.Phase WorkingStatus.Err WorkingStatus.RemoteAddr lastSendStartMsg lastStartErr
 //verif:guarded Manager mu proxies
 
+// C16 "mutexes around every shared map": every method of these types (and every
+// function literal inside them), whether or not it has a contract of its own,
+// is swept for accesses to the guarded fields without the lock.
+//
+//verif:sweep-type Wrapper props=C16 kinds=lock
+//verif:sweep-type Manager props=C16 kinds=lock
+
 // Unknown code reached from the wrapper. Assumed frames (listed in the
 // evidence): the event handler (Manager.HandleEvent -> transporter.Send) and
 // the concrete proxy's Run / Close / InWorkConn do not touch wrapper or manager
